@@ -458,6 +458,46 @@ def p1_truthful_flags(ctx: Ctx):
                     ctx.ok(rel, ret, q, construct)
 
 
+def p4_flags_of_this_rounding(ctx: Ctx):
+    """The flags of a result describe *this* rounding.  A result `Float(x=v, ctx=self)` takes its flags from `v`; that is
+    right when `v` comes out of the rounding call of this method (RealFloat.round computes them) and wrong when `v` is
+    still the operand -- itself possibly the flagged result of an earlier rounding.  In every context's rounding
+    methods, a returned `Float(x=v, ...)` has `v` bound from a rounding call on every path, or states inexact and
+    overflow itself."""
+    n = 0
+    for rel, cname, c in context_classes(ctx.repo):
+        for m in c.body:
+            if not (isinstance(m, ast.FunctionDef) and m.name in ('round', 'round_at', '_round_at', 'round_integer')):
+                continue
+            q = f'{cname}.{m.name}'
+            cfg = None
+            for r in [x for x in ast.walk(m) if isinstance(x, ast.Return) and isinstance(x.value, ast.Call) and call_name(x.value) == 'Float']:
+                v = kwarg(r.value, 'x')
+                if not isinstance(v, ast.Name):
+                    continue                # a substitute value of the context (nan_value / inf_value), built by the user
+                n += 1
+                if kwarg(r.value, 'inexact') is not None and kwarg(r.value, 'overflow') is not None:
+                    ctx.ok(rel, r, q, f'`{norm(r)[:50]}` states its own flags')
+                    continue
+                cfg = cfg or CFG(m)
+                rn = next(x for x in cfg.returns() if x.ast is r)
+
+                def binds(node, name=v.id):
+                    a = node.ast
+                    return node.kind == 'stmt' and isinstance(a, (ast.Assign, ast.AnnAssign)) and any(isinstance(t, ast.Name) and t.id == name for t in (a.targets if isinstance(a, ast.Assign) else [a.target]))
+
+                def rounding(node):
+                    val = node.ast.value
+                    return isinstance(val, ast.Call) and isinstance(val.func, ast.Attribute) and val.func.attr in ('round', '_round_at', 'round_at', '_fixup')
+                good = [x for x in cfg.nodes if binds(x) and rounding(x)]
+                p = find_path(cfg, cfg.entry, rn, avoid=lambda x: x in good)
+                ctx.check(p is None, rel, r, q, f'`{norm(r)[:50]}`: `{v.id}` comes out of the rounding call on every path',
+                          f'`{v.id}` can still be the operand here, flags and all: rounding the inexact result of an earlier rounding again reports inexact (or overflow) '
+                          'although the value is returned unchanged', path=describe_path(p, rel) if p else None)
+    if n < 8:
+        raise ShapeError(f'only {n} re-wrapped results found in the contexts')
+
+
 def p1b_fixup_keeps_flags(ctx: Ctx):
     """EFloatContext._fixup replaces a value: every replacement carries the flags of the original."""
     rel = CTXDIR + 'efloat.py'
@@ -1057,6 +1097,7 @@ RULES = [
     Rule('C01.T5', 'NaN/infinity arms of each _round_at: enabled -> special, no substitute -> raise, substitute -> value', t5_special_arms, 30, 'T,S'),
     Rule('C01.X1', 'every match over a rounding enum is exhaustive or refuses; unhandled overflow modes rejected at construction', x1_enum_exhaustive, 14, 'X'),
     Rule('C01.P1', 'every path from an out-of-range test to a return sets overflow and inexact on the returned value', p1_truthful_flags, 4, 'P'),
+    Rule('C01.P4', 'the flags of a result are those of this rounding: a re-wrapped value comes out of the rounding call, or the result states its flags', p4_flags_of_this_rounding, 8, 'P'),
     Rule('C01.P1b', 'EFloatContext._fixup replacements carry the flags of the rounded value', p1b_fixup_keeps_flags, 7, 'P'),
     Rule('C01.P2', 'NaN, infinity and zero are taken out on every path before RealFloat.round', p2_specials_first, 15, 'P,S'),
     Rule('C01.F1', 'rm, num_randbits, rng, exact, precision and position forwarded at every rounding call', f1_plumbing, 32, 'F'),
@@ -1083,6 +1124,10 @@ _EF = CTXDIR + 'efloat.py'
 _EXP = CTXDIR + 'exponential.py'
 
 MUTANTS = [
+    Mutant('real-rounding-keeps-the-operand-flags', CTXDIR + 'real.py', "        return Float(\n            x=xr, ctx=self,\n            invalid=False, divzero=False, overflow=False,\n            tiny_pre=False, tiny_post=False, inexact=False, carry=False,\n        )",
+           "        return Float(x=xr, ctx=self)", 'C01.P4', 'finding F78 before its repair: REAL.round(FP16.round(0.1)).inexact is True'),
+    Mutant('member-of-this-context-returned-as-it-is', CTXDIR + 'mp_float.py', "        # step 3. round value based on rounding parameters\n", "        if isinstance(x, Float) and x.ctx is self:\n            return Float(x=xr, ctx=self)\n        # step 3. round value based on rounding parameters\n", 'C01.P4',
+           'the shape of seeded change C01d in another context'),
     Mutant('prepare-remembered-by-precision', CTXDIR + 'context.py', "        p, n = self.round_params()\n        return mpfr_value(x, prec=p, n=n)",
            "        p, n = self.round_params()\n        key = (x, p)\n        if key not in _PREPARED:\n            _PREPARED[key] = mpfr_value(x, prec=p, n=n)\n        return _PREPARED[key]\n\n\n_PREPARED: dict = {}\n", 'C01.M1',
            'seeded change C01c: every fixed-point context has p = None, so the first one to round 1/3 decides for all'),
